@@ -5,10 +5,14 @@
  * case : <termtype> <hexstream> <cut>[+<gap>],<cut>[+<gap>],..|- [tokens of the whole stream: ignored here]
  *        after the chunk that ends at <cut> the virtual clock advances by <gap> microseconds and
  *        the time-out is polled (tickit_term_input_check_timeout_msec), as an event loop does
+ *        <cut>~<w>~<w>..: after that chunk the application WAITS instead: tickit_term_input_wait_msec(<w>)
+ *        (or, <w> = T<sec>:<usec>, tickit_term_input_wait_tv) on a descriptor on which nothing ever arrives;
+ *        select is replaced at link time: it advances the virtual clock by the time-out it is given and returns 0
  * obs  : k<type>:<mod>:<hexstr>   key event (type 1 = KEY, 2 = TEXT)
  *        m<type>:<button>:<line>:<col>:<mod>   mouse event (1 press, 2 drag, 3 release, 4 wheel)
  *        a<msec>   tickit_term_input_check_timeout_msec after each chunk and its gap (-1 = not
  *                  armed, else the milliseconds left; a forced time-out shows as extra events)
+ *        w<usec> a<msec>   after each wait: the virtual time it took, get_timeout() afterwards (not forcing)
  *        h<mask>   TickitTerm.mouse_buttons_held at the end
  * term.c is included so that the private held-button field can be read. */
 #include "term.c"
@@ -23,6 +27,18 @@ int __wrap_gettimeofday(struct timeval *tv, void *tz)
   long long v = 1000000LL * 1000000LL + vclock;
   tv->tv_sec = v / 1000000; tv->tv_usec = v % 1000000; return 0;
 }
+
+/* select as the wait path sees it: nothing ever arrives, the time-out passes (a wait without time-out would block
+ * for ever: reported as w-1) */
+static int blocked;
+int __wrap_select(int n, fd_set *r, fd_set *w, fd_set *e, struct timeval *tv)
+{
+  if(r) FD_ZERO(r);
+  if(!tv) { blocked = 1; return 0; }
+  vclock += tv->tv_sec * 1000000LL + tv->tv_usec;
+  return 0;
+}
+static int pipe_rd = -1;
 
 static char out[1 << 18];
 static size_t outn;
@@ -50,6 +66,7 @@ static int on_mouse(TickitTerm *tt, TickitEventFlags flags, void *_info, void *d
 
 int main(void)
 {
+  { int pp[2]; if(pipe(pp)) return 2; pipe_rd = pp[0]; }
   while(vh_next()) {
     if(vh_ntok < 3) { printf("ERR case\n"); fflush(stdout); continue; }
     outn = 0; out[0] = 0; vclock = 0;
@@ -58,6 +75,7 @@ int main(void)
     /* a leading '!' marks a stream with malformed parts (robustness only, see tools/props/C20.py) */
     TickitTerm *tt = tickit_term_build(&(struct TickitTermBuilder){ .termtype = vh_tok[0] + (vh_tok[0][0] == '!') });
     if(!tt) { printf("ERR noterm\n"); fflush(stdout); free(b); continue; }
+    if(strchr(vh_tok[2], '~')) tt->infd = pipe_rd;   /* the wait path needs a descriptor; nothing is ever written to it */
     tickit_term_set_utf8(tt, 1);
     tickit_term_bind_event(tt, TICKIT_TERM_ON_KEY, 0, on_key, NULL);
     tickit_term_bind_event(tt, TICKIT_TERM_ON_MOUSE, 0, on_mouse, NULL);
@@ -65,6 +83,8 @@ int main(void)
     if(strcmp(vh_tok[2], "-") != 0) {
       char *save = NULL;
       for(char *c = strtok_r(vh_tok[2], ",", &save); c; c = strtok_r(NULL, ",", &save)) {
+        char *til = strchr(c, '~');
+        if(til) *til = 0;
         char *plus = strchr(c, '+');
         long long gap = plus ? atoll(plus + 1) : 0;
         size_t cut = strtoul(c, NULL, 10);
@@ -74,8 +94,27 @@ int main(void)
         memcpy(chunk, b + pos, cut - pos);
         tickit_term_input_push_bytes(tt, chunk, cut - pos);
         free(chunk);
-        vclock += gap;
-        OUT("a%d ", tickit_term_input_check_timeout_msec(tt));
+        if(til) {
+          for(char *w = til + 1; w; ) {
+            char *nx = strchr(w, '~');
+            if(nx) *nx = 0;
+            long long before = vclock;
+            blocked = 0;
+            if(w[0] == 'T') {
+              long sec = 0, usec = 0; sscanf(w + 1, "%ld:%ld", &sec, &usec);
+              struct timeval tv = { .tv_sec = sec, .tv_usec = usec };
+              tickit_term_input_wait_tv(tt, &tv);
+            }
+            else
+              tickit_term_input_wait_msec(tt, atol(w));
+            OUT("w%lld a%d ", blocked ? -1LL : vclock - before, get_timeout(tt));
+            w = nx ? nx + 1 : NULL;
+          }
+        }
+        else {
+          vclock += gap;
+          OUT("a%d ", tickit_term_input_check_timeout_msec(tt));
+        }
         pos = cut;
       }
     }
